@@ -454,11 +454,11 @@ fn chain_case(names: &[&str], fw: &[Fwding], given: bool, with_pipe: bool, inv_l
     }
 }
 
-fn nesting_cases() -> Vec<(String, Case)> {
+fn nesting_cases(max_depth: usize) -> Vec<(String, Case)> {
     let names = ["a", "m", "z"];
     let fws = [Fwding::Ref, Fwding::RefDef, Fwding::Lit, Fwding::Implicit];
     let mut out = Vec::new();
-    for d in 1..=4usize {
+    for d in 1..=max_depth {
         let nn = names.len().pow(d as u32);
         let nf = fws.len().pow((d - 1) as u32);
         for ni in 0..nn {
@@ -520,14 +520,14 @@ fn graph_expect(bodies: &[Vec<usize>], entry: usize, stack: &mut Vec<usize>) -> 
     Some(k)
 }
 
-fn graph_sweep(rep: &Report) {
-    // bodies: sequences of length 1..2 over {0=addone, 1=g:0, 2=g:1, 3=g:2}
+fn graph_sweep(rep: &Report, n: usize, all_entries: bool) {
+    // bodies: sequences of length 1..2 over {0=addone, 1=g:0, .., n=g:(n-1)}
     let mut body_alphabet: Vec<Vec<usize>> = Vec::new();
-    for a in 0..4 {
+    for a in 0..=n {
         body_alphabet.push(vec![a]);
     }
-    for a in 0..4 {
-        for b in 0..4 {
+    for a in 0..=n {
+        for b in 0..=n {
             body_alphabet.push(vec![a, b]);
         }
     }
@@ -535,18 +535,19 @@ fn graph_sweep(rep: &Report) {
     let sym = |s: usize| if s == 0 { "addone".to_string() } else { format!("g:{}", s - 1) };
     let mut cases = Vec::new();
     let mut expects = Vec::new();
-    for gi in 0..nb * nb * nb {
-        let idx = decode(gi, &[nb, nb, nb]);
+    for gi in 0..nb.pow(n as u32) {
+        let idx = decode(gi, &vec![nb; n]);
         let bodies: Vec<Vec<usize>> = idx.iter().map(|&i| body_alphabet[i].clone()).collect();
-        let resources: Vec<Value> = (0..3)
+        let resources: Vec<Value> = (0..n)
             .map(|k| json!([format!("g:{k}"), bodies[k].iter().map(|&s| sym(s)).collect::<Vec<_>>().join(" | ")]))
             .collect();
-        for entry in 0..3 {
+        // (entering at another macro is the same graph with the names permuted)
+        for entry in 0..if all_entries { n } else { 1 } {
             cases.push(json!({"resources": resources, "definition": format!("g:{entry}")}).to_string());
             expects.push(graph_expect(&bodies, entry, &mut vec![]));
         }
     }
-    run_expected(rep, "graphs(3 macros, bodies of length 1..2)", cases, expects);
+    run_expected(rep, &format!("graphs({n} macros, bodies of length 1..2)"), cases, expects);
 }
 
 fn run_expected(rep: &Report, label: &str, cases: Vec<String>, expects: Vec<Option<u64>>) {
@@ -754,9 +755,12 @@ pub fn run(tier: Tier) -> Report {
     rep.assume("the reference expander implements environment-passing substitution as stated in the property (caller values visible to every step and nested macro, step-local values win, $name/$name(d)/(d) forms)");
     inprocess(&rep, binding_cases(), "binding");
     inprocess(&rep, sibling_cases(), "sibling arguments");
-    let nest = nesting_cases();
+    let nest = nesting_cases(match tier { Tier::Quick => 4, Tier::Thorough => 5 });
     inprocess(&rep, nest, "nesting");
-    graph_sweep(&rep);
+    graph_sweep(&rep, 3, true);
+    if tier == Tier::Thorough {
+        graph_sweep(&rep, 4, false);
+    }
     depth_sweeps(&rep, 50);
     rep
 }
